@@ -177,8 +177,8 @@ fn programs(pad: &'static str, max_len: u32, core_only: bool) -> Gen<Vec<S>> {
                     return false;
                 }
                 txt.contains("sets(") || txt.contains("sett(") || txt.contains("id(") || txt.contains("s get s")
-                    || txt.contains("a.push(s)") || txt.contains("a[0] get s") || txt.contains("shout(s)")
-                    || txt.contains("shout(a)") || txt.contains("a.pop") || txt.contains("rec(") || txt.contains("mkc(") || txt.contains("grow(") || txt.contains("first(")
+                    || txt.contains("a.push(s)") || txt.contains("a[0] get s")
+                    || txt.contains("a.pop") || txt.contains("rec(") || txt.contains("mkc(") || txt.contains("grow(") || txt.contains("first(")
             })
             .collect()
     } else {
